@@ -371,7 +371,21 @@ def payload_of(case):
         return out
 
 
+COV_TARGETS = {
+    'ombott/request_pkg/multipart.py': ['FieldStorage', 'MultipartMarkup', 'BodyMarkuper.__init__'],
+    'ombott/request_pkg/body_mixin.py': ['BodyMixin.json', 'BodyMixin.POST', 'BodyMixin.forms', 'BodyMixin.files',
+                                         'BodyMixin._body', 'BodyMixin._get_body_string', 'BodyMixin.content_length',
+                                         'BodyMixin.content_type', 'BodyMixin.ctype', 'BodyMixin.chunked', 'BodyMixin.body',
+                                         '_body_read'],
+    'ombott/request_pkg/request.py': ['BaseRequest._raise'],
+}
+
+
 def run_impl(case):
+    return F.covered(ID, COV_TARGETS, _run_impl, case)
+
+
+def _run_impl(case):
     from ombott import Ombott
     app = Ombott(dict(max_memfile_size=case['mem'], max_body_size=case['maxb']))
     seen = {}
